@@ -14,7 +14,7 @@ claim("C02", "who-may-write table over resolved mutation sites + sibling tables 
       "*http.Request in the proxy's client path and the agent's handler chain is enumerated), that both hop-by-hop tables equal "
       "the RFC 7230 set, that the backend-facing proxy is httputil.NewSingleHostReverseProxy of a Scheme+Host URL without "
       "Director/Rewrite override, that the request object stored, serialised (Request.Write), parsed (private bufio.Reader) and "
-      "served is one chain of custody, that the fetched reply body stays open until the request was forwarded, that no pooled buffers carry request bytes, that no fetch helper defers the cancel of the context its returned response still needs, that the agent never reads the body of the request it forwards, that the live value slices of request header fields are not sorted or overwritten in place (in any function of package agent), that the stored client request's body is touched by Request.Write only in the stand-alone proxy (no peeking reader left behind), and that no ServeMux/StripPrefix/TimeoutHandler sits on the pass-through route.")
+      "served is one chain of custody, that the fetched reply body stays open until the request was forwarded, that no pooled buffers carry request bytes, that no fetch helper defers the cancel of the context its returned response still needs, that the agent never reads the body of the request it forwards, that the live value slices of request header fields are not sorted or overwritten in place (in any function of package agent), that the stored client request's body is touched by Request.Write only in the stand-alone proxy (no peeking reader left behind), that nothing follows the serialised request in the agent's reply, that no worker goroutine shares a loop variable with its siblings, and that no ServeMux/StripPrefix/TimeoutHandler sits on the pass-through route.")
 
 claim("C03", "ownership-transfer rule + taint (tokeniser as sanitiser) + partial evaluation of status comparisons + dominance",
       "Byte identity through Response.Write/ReadResponse is not decided. Decides the repository-specific shapes the statement's "
@@ -22,14 +22,14 @@ claim("C03", "ownership-transfer rule + taint (tokeniser as sanitiser) + partial
       "with the writer's fields, directly or through its accessor); declared-trailer names pass a comma tokeniser before being "
       "used as keys; 1xx statuses never latch a ResponseWriter or get published, all final statuses (incl. 101) do — evaluated "
       "for representative statuses of each class; every header/trailer copy is guarded by the hop-by-hop predicate on the same "
-      "key and by no other filter; chunked framing is forced before serialisation; a final status after an interim one is still forwarded (two-call simulation of every ResponseWriter), retries restart through the refusing rewind and replay exactly the retained bytes (shared with C06.R/B), the stand-alone proxy forces chunked framing unconditionally, writer types grow no optional net/http interfaces; wrappers forward their own status and slice; the streaming writer's Close ends the body pipe cleanly on every path and nothing closes its write end with an error of the writer's own making.")
+      "key and by no other filter; chunked framing is forced before serialisation; a final status after an interim one is still forwarded (two-call simulation of every ResponseWriter), retries restart through the refusing rewind and replay exactly the retained bytes (shared with C06.R/B), the stand-alone proxy forces chunked framing unconditionally, writer types grow no optional net/http interfaces; wrappers forward their own status and slice; the streaming writer's Close ends the body pipe cleanly on every path and nothing closes its write end with an error of the writer's own making; the stand-alone proxy publishes the trailers on every path that copied the body and the upload handler closes only its own ends; net/http's process-wide defaults are not reconfigured.")
 
 claim("C04", "dominance / must-pass-through + confinement (escape) analysis + call-site uniqueness + channel typestate",
       "Decides for every order and grouping of pending-list replies: the worker start is control-dependent on the miss of the "
       "dedup lookup keyed by the very list element handed to the worker and every path through that branch records the key; the "
       "LRU never leaves the polling goroutine; its window is a constant ≥ 1000; every call site on the chain worker → ReadRequest "
       "→ callback → forwardRequest → ServeHTTP is unique and outside loops; the proxy has one send site for request IDs (not in a "
-      "loop, unbuffered channel) and every received ID is appended to the returned reply; the proxy's http.Server arms no read/write deadline. the agent hands every listed ID on (the parsed list is returned whole); Not decided: retries inside "
+      "loop, unbuffered channel) and every received ID is appended to the returned reply; the proxy's http.Server arms no read/write deadline. no seen ID is ever taken out of the dedup cache; workers capture only variables of their own iteration; the agent hands every listed ID on (the parsed list is returned whole); Not decided: retries inside "
       "ReverseProxy/Transport, LRU eviction order.")
 
 claim("C05", "deny-list over the static call closure of the response path + structural write-through / single-read rules",
@@ -46,7 +46,7 @@ claim("C06", "counted-loop evaluation + must-pass-through + truth tables by part
       "(writeHead vs len(buf), offset, whence evaluated on boundary values); the replay state is only touched under its mutex, "
       "each attempt reads through the handle returned by its own rewind and a stale generation never reaches the source; one failed chain of attempts is not restarted by an outer loop; the replay buffer retains exactly p[k:k+n] at writeHead (offset agreement on sample values); both "
       "forwarder goroutines close their pipe end and error channel on every exit, CloseWithError propagates failures, Close() "
-      "drains both channels; a RoundTrip of the module sends once (no resend below the retry loop). Not decided: attempt bytes for a given fault offset inside http.Transport.")
+      "drains both channels; a RoundTrip of the module sends once (no resend below the retry loop); reader/writer types declare no WriteTo/ReadFrom (io.Copy cannot bypass Read). Not decided: attempt bytes for a given fault offset inside http.Transport.")
 
 claim("C07", "VTA call-graph reachability + lockset + shared-state inventory + channel typestate + nil-through-channel rule",
       "Decides the ways this code base can kill or wedge the whole agent from per-request code: no process-terminating call in "
@@ -54,7 +54,7 @@ claim("C07", "VTA call-graph reachability + lockset + shared-state inventory + c
       "under its mutex (exclusive lock, RLock does not count for mutating accessors); every shared map / non-goroutine-safe object "
       "is guarded, per-request or read-only after construction; the dedup LRU is confined to the poller; no unchecked type "
       "assertion on per-request paths; possibly-nil messages are nil-checked across the shim channels; no close of a multi-sender "
-      "channel; published response maps are not aliased; JSON-decoded pointer elements are nil-tested; channels are closed only by their sole sender; one worker goroutine per fetched request, started without waiting for earlier ones; offsets found by searching one value only slice that value; no nil result travels with an error that was tested nil; shim sessions are forgotten only by close and failed polls; only reasoned fields of the reverse proxy are set; default 502 error handler. the forwarder never replaces the fetched request object; each shim queue has one sending side. the backend-facing transport dials through stateless hooks (no remembered failure); one garbled ID never fails the whole pending list. Not decided: panics inside dependencies.")
+      "channel; published response maps are not aliased; JSON-decoded pointer elements are nil-tested; channels are closed only by their sole sender; one worker goroutine per fetched request, started without waiting for earlier ones; offsets found by searching one value only slice that value; no nil result travels with an error that was tested nil; shim sessions are forgotten only by close and failed polls; only reasoned fields of the reverse proxy are set; default 502 error handler. the forwarder never replaces the fetched request object; each shim queue has one sending side. the backend-facing transport dials through stateless hooks (no remembered failure); one garbled ID never fails the whole pending list. an externally supplied slice index has a non-negative lower bound; a response returned with an error is not dereferenced on that error's branch; net/http defaults are not reconfigured. Not decided: panics inside dependencies.")
 
 claim("C08", "interval abstract interpretation over SSA on a complete finite partition + loop-structure rule",
       "The delay function touches its argument through one comparison and one shift, so the 64-bit argument range splits into "
@@ -77,7 +77,7 @@ claim("C10", "lockset + must-pass-through under status valuation + literal-field
       "is the session cookie literal on the no-session branch, Write cannot reach the wrapped writer before WriteHeader; 1xx does "
       "not latch; cookie literal attributes (HttpOnly, Path=/, Secure=!override, Expires=now+lifetime, name, fresh UUID); the "
       "session cookie is dropped and other client cookies kept (equality truth table), jars and cookie URL are the caller's own; the shim's open endpoint restores r.URL before the session handler runs; the backend-facing client of a session carries that session's jar only; the miss and the insertion of a session's jar happen under one hold of the cache mutex; the shim's open wrapper is the session handler of the configured cache. "
-      "No response header or whole response is kept across requests in package agent or agent/sessions (no replay of another client's Set-Cookie). Not decided: cookiejar matching, LRU eviction, expiry arithmetic.")
+      "The session cache is keyed by the session ID itself. No response header or whole response is kept across requests in package agent or agent/sessions (no replay of another client's Set-Cookie). Not decided: cookiejar matching, LRU eviction, expiry arithmetic.")
 
 claim("C11", "sibling agreement by partial evaluation + channel inventory + provenance of message fields",
       "Exactly-once/in-order over all histories is not decided. Decides the structural facts it rests on: encoder and decoder "
@@ -92,7 +92,7 @@ claim("C12", "channel typestate + every-path-answers (must-pass-through) + statu
       "send reachable from an endpoint selects on the connection's done channel, receives have timer/default alternatives; every "
       "CFG path of the five endpoint handlers produces an HTTP answer with constant status in {200,400,408,500}; an unknown "
       "session leads only to 400, failed send/poll to 400, only close and a failed poll forget a session; concurrent opens get distinct IDs; a poll delivers what it received before reporting closed; reader/writer cancel the "
-      "connection context on every exit, a goroutine closes the backend socket after Done, Close() makes the writer exit (the close frame is not queued behind a test of the closed channel); session-table keys are of a comparable concrete type. every store into the session table is keyed by the atomic increment on every path (no client-chosen IDs); recording a status code never waits for another goroutine; each queue has one sending side. an http.Error status that is not one constant has only allowed constants among its values. Not "
+      "connection context on every exit, a goroutine closes the backend socket after Done, Close() makes the writer exit (the close frame is not queued behind a test of the closed channel); session-table keys are of a comparable concrete type. every store into the session table is keyed by the atomic increment on every path (no client-chosen IDs); recording a status code never waits for another goroutine; each queue has one sending side. an http.Error status that is not one constant has only allowed constants among its values; the dial response is not dereferenced where the dial error is set. Not "
       "decided: that gorilla's WriteMessage returns in bounded time on a dead peer.")
 
 claim("C13", "must-assign (definite overwrite) per URL field + who-may-dial table + mounting/dispatch dominance",
@@ -108,7 +108,7 @@ claim("C14", "partial evaluation on predicate results + predicate truth tables +
       "the status and lets the body pass; framed requests get the original body; frameable ones get the frame and the uncacheable / "
       "sameorigin headers; Write forwards iff writeBytes; 1xx does not latch; predicate truth tables (only GET, only 200, not "
       "attachment, content-type constants); the shim touches nothing (not even the body) unless Content-Type contains html, the new "
-      "body is prefix+original (the only body installed; the original is not closed on a served path), and the script is inserted by Replace(…, 1) or by index and slice on the same string; the request URL is never rewritten in place in front of the banner, no append builds on a slice shared between requests; the frame source is targetURL.String() itself (HTML escaping aside); rendered pages live in call-owned (not pooled or captured) buffers and the backend-facing proxy gets no Director/Transport override for injection.")
+      "body is prefix+original (the only body installed; the original is not closed on a served path), and the script is inserted by Replace(…, 1) or by index and slice on the same string; the request URL is never rewritten in place in front of the banner, no append builds on a slice shared between requests; the frame source is targetURL.String() itself (HTML escaping aside); isAlreadyFramed believes Sec-Fetch-Dest/Mode without a Referer; the shim hook fails only on a raw non-EOF read error; rendered pages live in call-owned (not pooled or captured) buffers and the backend-facing proxy gets no Director/Transport override for injection.")
 
 claim("C15", "sibling agreement (encoder/decoder) by partial evaluation + buffer-discipline provenance + pairing",
       "Byte-stream integrity for all sizes is not decided. Decides the codec/structure it rests on: Write sends one TextMessage "
@@ -121,7 +121,7 @@ claim("C16", "pairing: copy-loop completion must reach a close of the pair; acqu
       "Timing is not decided. Decides the structural obstacle the property names: in each bridging function, when either "
       "direction's io.Copy returns that goroutine closes the connections of the pair (directly or via a closure that does), "
       "independently of its sibling — an expired deadline or a conditional close is not accepted — and every acquired connection "
-      "(Upgrade, Dial, Accept, DialWebsocket) has a deferred Close; no SO_LINGER≥0 is armed and no raw descriptor is taken from a bridge socket; an acquisition is followed by its deferred Close on every path; a wrapper's Close never takes a lock that is held across blocking I/O; every websocket dial of the bridge is bounded (DefaultDialer, positive HandshakeTimeout or deadline context); the connection types define no ReadFrom/WriteTo of their own (io.Copy returns only when its bytes were written); a wrapper's Close writes nothing unbounded to the websocket.")
+      "(Upgrade, Dial, Accept, DialWebsocket) has a deferred Close; no SO_LINGER≥0 is armed and no raw descriptor is taken from a bridge socket; an acquisition is followed by its deferred Close on every path; a wrapper's Close never takes a lock that is held across blocking I/O; every websocket dial of the bridge is bounded (DefaultDialer, positive HandshakeTimeout or deadline context); the connection types define no ReadFrom/WriteTo of their own (io.Copy returns only when its bytes were written); a wrapper's Close writes nothing unbounded to the websocket; a closing closure closes on every path; no websocket read limit while writes are unsegmented.")
 
 claim("C17", "dominance + provenance (validated value) + sibling agreement of Store implementations + partial evaluation",
       "Identity values come from App Engine. Decides for all callers and orders: in each agent endpoint checkBackendID dominates "
@@ -129,14 +129,14 @@ claim("C17", "dominance + provenance (validated value) + sibling agreement of St
       "returns the ID it checked for the OAuth e-mail only when allowed; the store compares with == and denies missing records; "
       "admin CRUD is unreachable for non-admins (403), the cron arm is the only exception and api.yaml restricts it; end users are "
       "looked up by their own e-mail and only EndUser-filtered backends are considered; the caching store is stateless, delegates "
-      "with its own parameters (purely for access/routing decisions) and all keys are injective (%q) and role-consistent; the GET response cache key renders the user's e-mail and the URL themselves (no masked or normalised user tag).")
+      "with its own parameters (purely for access/routing decisions) and all keys are injective (%q) and role-consistent; the GET response cache key renders the user's e-mail and the URL themselves (no masked or normalised user tag); sentinels of other packages are compared on the raw error (a wrapped ErrNoSuchEntity would answer unknown IDs differently from forbidden ones).")
 
 claim("C18", "dominance (liveness gate) + truth tables by partial evaluation + purity/determinism of the selection function",
       "Full equivalence with a longest-prefix specification is not decided. Decides: every backend ID returned by the lookups "
       "passed hasBackend(<same ID>, 5 min); hasBackend is 'seen and Since < timeout' on boundary values; the shared lookup runs only "
       "when the user has no match; the lookup is keyed by the decoded r.URL.Path; failure is 404 before any store write; a successful registerBackendAsSeen has written the tracker with time.Now(); the store's list call returns only after it ran, under the caller's context; the selection function is pure and deterministic, updates "
       "its best candidate only under HasPrefix(path, p) and only when there is none yet or len(p) > len(best), records ID and prefix "
-      "of the same backend, and errors exactly when there is no match; neither loop is left early (every prefix of every backend is compared); no cache or memo sits in front of the routing decision; the store call that records a backend as seen is made by the agent-facing wait loop only; identity fields of backend definitions are stored as registered (no normalisation that changes the allUsers sentinel) and the candidate queries carry no Limit/Offset/cursor.")
+      "of the same backend, and errors exactly when there is no match; neither loop is left early (every prefix of every backend is compared); no cache or memo sits in front of the routing decision; the store call that records a backend as seen is made by the agent-facing wait loop only; identity fields of backend definitions are stored as registered (no normalisation that changes the allUsers sentinel) and the candidate queries carry no Limit/Offset/cursor; the lookup receives user.Current().Email.")
 
 claim("C19", "provenance of IDs and bytes + sibling key agreement + path-sensitive send counting vs. channel capacity + pairing",
       "Blob arithmetic at the 1 MB boundaries is not decided. Decides: the client path stores and awaits under the same (backend, "
@@ -144,7 +144,7 @@ claim("C19", "provenance of IDs and bytes + sibling key agreement + path-sensiti
       "response is stored only when the request exists under that pair; datastore keys agree between write and read, blob parts are "
       "read with one ordered GetMulti in the recorded order without goroutines; Completed=true is set on the read request before it "
       "is written back and the pending query filters it; every error channel's capacity covers its possible senders, WaitGroup "
-      "counts match, both wait loops are bounded by WithTimeout(constant), no cycle of them avoids the Done select, and a time-out maps to 504 on every path; the caching store delegates with its own parameters (context included); cache keys are injective in (backend ID, request ID); the GET response cache key is injective in (user, URL), components verbatim; every return of postResponse passed the write of the response or an error report.")
+      "counts match, both wait loops are bounded by WithTimeout(constant), no cycle of them avoids the Done select, and a time-out maps to 504 on every path; the caching store delegates with its own parameters (context included); cache keys are injective in (backend ID, request ID); the GET response cache key is injective in (user, URL), components verbatim; every return of postResponse passed the write of the response or an error report; of the goroutines a store function starts at most one assigns a captured result; the wait loops get no context with a caller-made deadline.")
 
 claim("C20", "dominance + who-may-call + partial evaluation of health/threshold comparisons + confinement of the polling context",
       "Exit times are not decided. Decides the ordering and counting structure: waitForHealthy dominates the adapter start and "
